@@ -1,7 +1,7 @@
 import FrappyProofs.Lemmas.CompatComplete
 import FrappyProofs.Lemmas.CompatLawsRat
 import FrappyProofs.Lemmas.CopyHeap
-import FrappyProofs.Lemmas.Datainfo
+import FrappyProofs.Lemmas.DatainfoOpt
 import FrappyModel.Generated.C03
 /-
 C03 — property theorems (nothing but property theorems, table facts and non-vacuity examples).
@@ -21,25 +21,32 @@ variable {F : Type} [FloatOps F] [LawfulFloatOps F] [CompatLaws F]
 theorem constsOK2 : ConstsOK2 F :=
   ⟨LawfulFloatOps.addZero_neg_maxFinite, LawfulFloatOps.addZero_maxFinite⟩
 
-/-- the full statement: exporting the datainfo of an exportable tree and rebuilding it yields a type with
-the same datainfo again that validates and imports exactly like the original -/
-def rebuild_equiv_statement (F : Type) [FloatOps F] : Prop :=
-  ∀ (D : Consts F), D.OK → ∀ dt : DInfo F, dt.WF D → dt.Exportable →
-    ∃ j dt', exportDatatype D dt = .ok j ∧ getDatatype D j = .ok dt' ∧ exportDatatype D dt' = .ok j ∧
-      (∀ v prev, validate dt'.erase v prev = validate dt.erase v prev) ∧
-      (∀ w, importValue dt'.erase w = importValue dt.erase w)
-
-/-- proved part: the rebuilt tree is the original one up to the enum name (not exported) and the `client`
-mark, hence all three conjuncts.  Missing for the full statement: a struct whose `optional` list names all
-members in an order other than the member order (the datainfo leaves `optional` out, the rebuild lists the
-members in member order — the same set, but not the same tree in the model: `OptionalInOrder`). -/
-theorem rebuild_equiv_partial (D : Consts F) (hD : D.OK) (dt : DInfo F) (hwf : dt.WF D)
-    (hex : dt.Exportable) (hord : dt.OptionalInOrder) :
+/-- exporting the datainfo of a well-formed exportable tree and rebuilding it yields a type that exports the
+identical datainfo again and validates / imports exactly like the original.  (The rebuilt tree is the original
+up to the enum name — not exported —, the `client` mark, and the order of `optional` where it names all
+members: the datainfo leaves it out then and the rebuild lists the members in member order; `optional` is only
+ever used as a set.) -/
+theorem rebuild_equiv (D : Consts F) (hD : D.OK) (dt : DInfo F) (hwf : dt.WF D) (hex : dt.Exportable) :
     ∃ j dt', exportDatatype D dt = .ok j ∧ getDatatype D j = .ok dt' ∧ exportDatatype D dt' = .ok j ∧
       (∀ v prev, validate dt'.erase v prev = validate dt.erase v prev) ∧
       (∀ w, importValue dt'.erase w = importValue dt.erase w) := by
-  obtain ⟨j, h1, h2⟩ := rebuild_core D hD constsOK2 dt hwf hex hord
-  exact ⟨j, dt.asClient, h1, h2, by rw [export_asClient, h1], validate_asClient dt, import_asClient dt⟩
+  obtain ⟨j, h1, h2⟩ := rebuild_core D hD constsOK2 (normOpt dt) (normOpt_wf D dt hwf) (normOpt_exportable dt hex)
+    (normOpt_inOrder dt)
+  rw [export_normOpt] at h1
+  refine ⟨j, (normOpt dt).asClient, h1, h2, by rw [export_asClient, export_normOpt, h1], ?_, ?_⟩
+  · intro v prev
+    rw [validate_asClient]
+    exact conv_normOpt .validate dt v prev
+  · intro w
+    rw [import_asClient]
+    exact import_normOpt dt w
+
+/-- when `optional` is in member order wherever it names all members, the rebuilt tree is exactly the
+original up to the enum name and the `client` mark -/
+theorem rebuild_exact (D : Consts F) (hD : D.OK) (dt : DInfo F) (hwf : dt.WF D)
+    (hex : dt.Exportable) (hord : dt.OptionalInOrder) :
+    ∃ j, exportDatatype D dt = .ok j ∧ getDatatype D j = .ok dt.asClient :=
+  rebuild_core D hD constsOK2 dt hwf hex hord
 
 /-- `copy()` of an exportable tree is the tree itself (same datainfo, same `validate`, same `import_value`,
 same `__call__`, the enum name and the client mark kept) — sharing is the subject of `copyH_fresh` -/
